@@ -28,6 +28,10 @@ Fixpoint le_pack (ws vs : list Z) : Z :=
 
 Definition fits_widths (ws vs : list Z) : Prop := Forall2 (fun w v => 0 <= v < 2 ^ w) ws vs.
 
+(* a value that fits the width passes the range check of BitBuffer.write *)
+Lemma fits_in_field v w : 0 <= w -> 0 <= v < 2 ^ w -> (v <? 0) || negb (Z.shiftr v w =? 0) = false.
+Proof. intros Hw [H0 H1]. rewrite Z.shiftr_div_pow2 by lia. rewrite Z.div_small by lia. assert (v <? 0 = false) as -> by lia. reflexivity. Qed.
+
 (* each value lies in [0, 2^w) *)
 Lemma le_read_range u ws : widths_ok ws -> fits_widths ws (le_read_seq u ws).
 Proof.
